@@ -12,6 +12,7 @@ LEMMAS = {
     'C07': ['vspec::lemma_frame_enc_len', 'vspec::lemma_full_frame_ends_block', 'vspec::enc', 'vspec::lemma_enc_len_bound', 'frame::header::lemma_hdr_roundtrip',
             'vroundtrip::lemma_blocks_of', 'vroundtrip::lemma_read_written_frame', 'vroundtrip::lemma_read_written_record', 'vroundtrip::lemma_roundtrip_all'],
     'C08': ['frame::header::lemma_hdr_roundtrip'],
+    'C09': ['vdamage::lemma_damaged_frame', 'vdamage::lemma_skip_frames', 'vdamage::lemma_damaged_record', 'vdamage::lemma_one_damaged_entry', 'vdamage::lemma_replay_log_is_fold', 'vdamage::lemma_one_damaged_entry_replay', 'vdamage::lemma_read_all_intact'],
     'C10': ['vspec::lemma_frame_step_progress', 'vspec::rec_step', 'vspec::lemma_rec_step_progress', 'vfs::lemma_all_blocks_ok', 'vfs::lemma_block_at'],
     'C11': ['vspec::lemma_frame_step_progress', 'vspec::lemma_rec_step_progress', 'vfs::lemma_blocks_below_skip', 'vfs::lemma_blocks_below_step'],
     'C12': ['vspec::lemma_parse_ser_items', 'vspec::lemma_rec_step_progress', 'vtorn::lemma_zeros_end', 'vtorn::lemma_torn_frame', 'vtorn::lemma_torn_record', 'vtorn::lemma_torn_tail'],
@@ -104,10 +105,11 @@ PROPS = {
     'C09': dict(
         level='proof',
         explain='open reports Corruption ONLY where the replay rule does (O-C09-open-corruption: Err(Corruption) ==> open_spec(dir) is None), and otherwise returns the replay of every entry the reading rule delivers (O-C01-open-replay): a skipped frame costs exactly the entry it belongs to in replay_log. '
+                'Composition L-C09 (spec/vdamage.rs, lemma_one_damaged_entry / _replay): for every stream offset, every sequence of entries and every frame of every entry, damage confined to the checksum / payload bytes of that ONE frame (detected by the CRC) makes recovery deliver exactly the other entries, whole and in order, and compute the replay of exactly those (replay_log == replay_bytes(entries.remove(j))). '
                 'Mechanism level: on CRC mismatch the cursor advances by exactly 7+len and the block is kept (frame_step Corrupt arm, O-C08-step); '
                 'replay tolerance: ack_position implements log_ack (O-C09-ack), gaps in positions accepted (O-C05-append), unknown DeleteQueue ignored (P-C01-replay-delete).',
         kani_quick=[], kani_thorough=[],
-        trusted=[FS], not_decided=['history-level "every other retained record is recovered"'],
+        trusted=[FS], not_decided=['the last step of the history-level statement: that the replay of the history minus one entry retains every record whose append was not hit (follows from the replay tolerance rules O-C09-ack / gaps accepted, not composed into one lemma)'],
     ),
     'C10': dict(
         level='proof',
